@@ -636,6 +636,13 @@ impl CpcSketch {
                 "corrupted: {num_coupons} coupons is more than the matrix of lg_k {lg_k} holds"
             )));
         }
+        // A sketch cannot be updated past window offset 56 (the window would leave the
+        // 64-column matrix), so no writer produces a count that implies a larger one.
+        if determine_correct_offset(lg_k, num_coupons) > 56 {
+            return Err(Error::deserial(format!(
+                "corrupted: {num_coupons} coupons imply a window offset beyond 56 for lg_k {lg_k}"
+            )));
+        }
         let uncompressed = compressed.uncompress(lg_k, num_coupons)?;
         let sketch = CpcSketch {
             lg_k,
